@@ -32,6 +32,9 @@ pub fn exec(ctx: &mut Ctx, case: &Case) {
                 let h: Vec<&str> = idx.iter().map(|&i| OPS[i]).collect();
                 let ht = h.join("\n");
                 ctx.evals += 1;
+                if ctx.want_sample() {
+                    ctx.note_sample(Case::new("hist").arg(s(0)).arg(&ht));
+                }
                 both_families!(ctx, Prod::RiRef, s(0), c11_history, &ht);
                 let mut j = 0;
                 while j < len {
